@@ -398,6 +398,7 @@ func c02Run(in c02Input, snap *slog.VerifRegistry) (o c02Obs) {
 		}
 	}
 	ep := entryPoint{in.Recv, in.Name, in.Sev, in.EPKind}
+	historyPrelude(len(in.Msg)*11 + len(in.Args)*7 + in.Sev*3 + len(in.Ops) + in.Level)
 	events = nil
 	stdDelta()
 	if in.reentrant() {
